@@ -107,11 +107,15 @@ pub fn gen_transform(rng: &mut Rng, max_log: u32) -> TransformParams {
     }
 }
 
-/// Turn a random block into one of the shapes random data never has: zero
-/// block, zero half-lanes, zero low or high bytes, constant bytes, a short
-/// shard's layout, a tiny alphabet.
+/// Turn a random block into one of the shapes random data never has. Besides
+/// the plain ones (zero block, zero quarters, constant bytes, a short shard's
+/// layout, a tiny alphabet) the two 32-byte halves (low and high bytes of the
+/// 32 symbols) and the 16-byte quarters are put into the algebraic relations
+/// that a wrong reduction confuses with "all zero": equal (xor, sub),
+/// negated at every lane width (add), complementary bits (and) - combined
+/// with the same quarters zeroed in both halves.
 pub fn structure_block(rng: &mut Rng, b: &mut [u8; 64]) {
-    match rng.below(8) {
+    match rng.below(10) {
         0 => *b = [0; 64],
         1 => b[..16].fill(0),
         2 => b[16..32].fill(0),
@@ -134,10 +138,83 @@ pub fn structure_block(rng: &mut Rng, b: &mut [u8; 64]) {
                 b[33] = hi1;
             }
         }
-        _ => {
+        7 => {
             for x in b.iter_mut() {
                 *x &= 1;
             }
+        }
+        _ => {
+            // relation between the quarters of each half
+            match rng.below(4) {
+                0 => {
+                    let (q0, q2) = (b[..16].to_vec(), b[32..48].to_vec());
+                    b[16..32].copy_from_slice(&q0);
+                    b[48..].copy_from_slice(&q2);
+                }
+                1 => {
+                    let w = *rng.pick(&[1usize, 2, 4, 8, 16]);
+                    let (q0, q2) = (b[..16].to_vec(), b[32..48].to_vec());
+                    negate_lanes(&q0, &mut b[16..32], w);
+                    negate_lanes(&q2, &mut b[48..], w);
+                }
+                _ => {}
+            }
+            // relation between the halves
+            let lo = b[..32].to_vec();
+            match rng.below(5) {
+                0 => b[32..].copy_from_slice(&lo),
+                1 => {
+                    let w = *rng.pick(&[1usize, 2, 4, 8, 16, 32]);
+                    negate_lanes(&lo, &mut b[32..], w);
+                }
+                2 => {
+                    for i in 0..32 {
+                        b[32 + i] = !lo[i];
+                    }
+                }
+                3 => {
+                    // complementary bits: lo & hi == 0, both non-zero
+                    let m = rng.next_u64() as u8;
+                    for i in 0..32 {
+                        b[i] &= m;
+                        b[32 + i] &= !m;
+                    }
+                }
+                _ => {}
+            }
+            // the same quarters zeroed in both halves (or independently)
+            if rng.chance(1, 2) {
+                let sym = rng.chance(2, 3);
+                let z = rng.below(4);
+                for q in 0..2 {
+                    if z & 1 << q != 0 {
+                        b[q * 16..(q + 1) * 16].fill(0);
+                        if sym {
+                            b[32 + q * 16..32 + (q + 1) * 16].fill(0);
+                        }
+                    }
+                }
+                if !sym {
+                    let z2 = rng.below(4);
+                    for q in 0..2 {
+                        if z2 & 1 << q != 0 {
+                            b[32 + q * 16..32 + (q + 1) * 16].fill(0);
+                        }
+                    }
+                }
+            }
+        }
+    }
+}
+
+/// dst = two's-complement negation of src in little-endian lanes of `w` bytes
+fn negate_lanes(src: &[u8], dst: &mut [u8], w: usize) {
+    for (s, d) in src.chunks(w).zip(dst.chunks_mut(w)) {
+        let mut carry = 1u16;
+        for (x, y) in s.iter().zip(d.iter_mut()) {
+            let v = (!*x) as u16 + carry;
+            *y = v as u8;
+            carry = v >> 8;
         }
     }
 }
@@ -265,8 +342,12 @@ fn mul_case(rng: &mut Rng, log_m: u16, out: &mut CaseOut) {
     // allocation ends, so that a sanitizer sees any access beyond it
     let tail = usize::from(!rng.chance(1, 3));
     let mut buf = vec![[0u8; 64]; blocks + 1 + tail];
+    let structured = rng.chance(1, 3);
     for b in buf.iter_mut() {
         rng.fill(b);
+        if structured {
+            structure_block(rng, b);
+        }
     }
     if rng.chance(1, 6) && blocks > 0 {
         buf[1] = [0; 64];
